@@ -41,10 +41,44 @@ def main():
                          trusted_base=getattr(mod, "TRUSTED_BASE", []) + core_tb(), rule=getattr(mod, "RULE", ""))
         sys.stdout.flush()
         os._exit(rc or 1)
-    budget = 1200 if a.tier == "quick" else 4 * 3600
+    budget = int(os.environ.get("VERIF_BUDGET", 0)) or (1200 if a.tier == "quick" else 4 * 3600)
     wd = threading.Timer(budget, watchdog)
     wd.daemon = True
     wd.start()
+
+    # stall detector: the main thread sits inside library code (a frame of $REPO/src/uberjob on its stack, harness not waiting for coqc or
+    # a helper) and the check has shown no sign of life for `stall` seconds: the library call does not return.  That is a concrete
+    # failure of the run in progress (replayable: the check is deterministic given seed and tier), reported at once instead of after
+    # the whole budget.
+    stall = int(os.environ.get("VERIF_STALL", 0)) or (150 if a.tier == "quick" else 400)
+    main_ident = threading.main_thread().ident
+    hdir = os.path.dirname(os.path.abspath(__file__))
+
+    def stall_watch():
+        import time
+        while True:
+            time.sleep(5)
+            if time.time() - core.T_LAST[0] < stall:
+                continue
+            fr = sys._current_frames().get(main_ident)
+            frames = []
+            while fr is not None:
+                frames.append((fr.f_code.co_filename, fr.f_code.co_name, fr.f_lineno))
+                fr = fr.f_back
+            if not any(f[0].startswith(core.REPO_SRC) for f in frames):
+                continue
+            where = next((f for f in frames if f[0].startswith(hdir) and not f[0].endswith(("main.py", "core.py"))), ("?", "?", 0))
+            lib = next(f for f in frames if f[0].startswith(core.REPO_SRC))
+            ctx.fail("hang:%s" % where[1], "a call into uberjob made by harness/%s:%s (line %d) has not returned for %d s: the main thread is in %s:%d (%s); "
+                     "last case recorded: %r" % (os.path.basename(where[0]), where[1], where[2], stall, os.path.relpath(lib[0], core.REPO_SRC), lib[2], lib[1], ctx.last_case),
+                     {"stack_innermost_first": ["%s:%d %s" % (os.path.relpath(f[0], "/"), f[2], f[1]) for f in frames[:25]], "last_case": repr(ctx.last_case),
+                      "replay_with": "VERIF_SEED=%d ./check %s --tier %s" % (seed, a.pid, a.tier)})
+            rc = core.finish(ctx, pinfo, gate_hits, build_ok, build_log,
+                             trusted_base=getattr(mod, "TRUSTED_BASE", []) + core_tb(), rule=getattr(mod, "RULE", ""))
+            sys.stdout.flush()
+            os._exit(rc or 1)
+    sw = threading.Thread(target=stall_watch, daemon=True, name="stall-detector")
+    sw.start()
     try:
         mod.run(ctx)
     except Exception:
